@@ -284,6 +284,24 @@ pub fn run_c07(tier: Tier) -> i32 {
         prop_of: prop_c07,
     };
     fill_report(&mut rep, plan.run(), "U(<=3) and U(<=2)+U(<=2), all argument lists (length 1..2 quick, 1..3 thorough)");
+    // every isomorphism class of U(4) and the sparse 5-argument classes: every list of length <= 2
+    {
+        let mut graphs = named(crate::universe::iso_representatives(4), "U4iso");
+        graphs.extend(named(crate::universe::iso_representatives_sparse(5, if thorough { 6 } else { 5 }), "U5iso"));
+        let plan = SweepPlan {
+            graphs,
+            presentations: vec![Presentation::Compact],
+            kinds: vec![QKind::DC, QKind::DS],
+            sems: all_sems(),
+            certs: vec![false, true],
+            lists: ArgLists::Lists(2),
+            with_lib_default: false,
+            cfgs: if thorough { vec![bounded(1, FvPolicy::False)] } else { vec![] },
+            with_cadical: true,
+            prop_of: prop_c07,
+        };
+        fill_report(&mut rep, plan.run(), &format!("all 3044 isomorphism classes of U(4) and the sparse 5-argument classes, all argument lists of length 1..2, CaDiCaL{}", if thorough { " and D<=1" } else { "" }));
+    }
     if thorough {
         // lists of length <= 2 on members of S with several components
         let plan = SweepPlan {
